@@ -211,6 +211,9 @@ __CPROVER_assigns(G_f)
 void h_force_disconnect(void) { struct ll* s; W_state = nondet_int(); W_reason = nondet_u8(); G_f.closed = 0; G_f.attempt_timeout = 0; G_f.reset_enc = 0; G_f.adv = 0; BT_KNOWN_EXCLUDE(); force_disconnect(s); BT_CANARY(); }
 """
 UNITS.append(dict(name='force_disconnect', extracts=FD_EX, code=FD_CODE, enforce=['force_disconnect'], replace=[]))
+# link_layer::adv_received (contract in lle.py): 'connection requested' is reported once per accepted connection request, after the connection data was renewed
+import lle
+UNITS.append(lle.unit(['adv_received'], name='connect'))
 META = dict(
     level='other',
     explanation="The mechanism between the link layer (interrupt context) and the application's call backs, connection_callbacks.hpp, real bodies: every producer "
@@ -220,11 +223,13 @@ META = dict(
                 "'none', until the ring is empty) and calls the call back of that event's kind exactly once with that event's connection and payload (version: "
                 "the two 16 bit fields decoded from octets 1..4; requested / established: with the addresses stored by connection_request()). The ring itself "
                 "(FIFO order, lossless up to its capacity) is C30. link_layer::force_disconnect reports 'attempt timed out' exactly for a connection that never "
-                "saw a connection event and 'closed' with the recorded reason otherwise, exactly one of them once, and resets the encryption state. "
+                "saw a connection event and 'closed' with the recorded reason otherwise, exactly one of them once, and resets the encryption state. link_layer::adv_received "
+                "reports 'connection requested' exactly once for an accepted connection request (valid channel map and timing), after buffers and connection data were renewed, "
+                "and never otherwise. "
                 "The clause 'the event is not lost' fails for a full ring: known finding F-C29 (reproduced natively).",
     assumptions=["NOT decided: the order in which the link layer calls the producers over a whole connection life time (requested at the connect request, "
-                 "established at the first connection event, closed / attempt_timeout from force_disconnect only) - that lives in the large link_layer<> "
-                 "member functions adv_received / end_event / timeout, which are not extracted; only force_disconnect is",
+                 "established at the first connection event, closed / attempt_timeout from force_disconnect only) - adv_received and force_disconnect are under contract, the "
+                 "'established' / 'changed' producers are called from setup_next_connection_event / handle_pending_ll_control, whose call sites are read",
                  "connection_details / connection_addresses are copied as opaque values (a tag stands for their content); the SFINAE wrappers call_ll_...< T > "
                  "are represented by abstract call backs (they call T::ll_... if T has it, nothing otherwise)",
                  "events_ is represented by an abstract queue with the try_push / try_pop behaviour C30 proves for the real ring"],
